@@ -82,6 +82,19 @@ def run(chk):
             kr = c01.knot_rule(F, E, M)
             chk.ob("C14-R1", "%s: knot k = start time + (durations 0..k-1), for every k in [0, N]" % cls, kr["size"] and kr["first"] and kr["prefix"], loc(kr["fn"]), kr["det"], construct=cls + "/knots/shift")
     chk.floor("C14-R1", 100)
+    # ---- R6 sufficiency premise: the invariances follow from R2-R5 *because* the spline is the unique minimiser of its
+    # data; that is C02's system / elimination obligations, re-derived here per class (a solver that drops the end state
+    # for N = 2 is no longer mirror symmetric although every block still is)
+    from .. import core
+    for short in SPLINES:
+        for cls in alg_classes(F, short, ("update", "propagateGrad")):
+            sub = core.Check("C02", chk.tier, chk.root)
+            c02.check_class(sub, F, short, cls)
+            rel = [o for o in sub.obs if o["rule"] in ("C02-R2", "C02-R3")]
+            bad = [o for o in rel if not o["ok"]]
+            chk.ob("C14-R6", "%s is the minimiser of its data for every N (system rows incl. the N = 1 / N = 2 end cases, exact elimination), so necessary conditions R2-R5 are sufficient" % cls,
+                   len(rel) >= 6 and not bad, bad[0]["where"] if bad else "", "%d obligations of C02-R2/R3; first failing: %s" % (len(rel), bad[0]["instance"][:160] if bad else "-"), construct=cls + "/minimiser-premise")
+    chk.floor("C14-R6", 4)
     # ---- algebraic rules -------------------------------------------------------------------------------------
     for short in SPLINES:
         for cls in alg_classes(F, short, ("update", "propagateGrad")):
